@@ -1435,7 +1435,7 @@ Lemma bind_nf {A B} (r : res A) (k : A -> res B) :
 Proof. intros H K. destruct r; simpl; auto; discriminate. Qed.
 
 Ltac op_nf :=
-  unfold GenOperators.body_postadd, GenOperators.body_postsub, GenOperators.body_pos, GenOperators.body_neg,
+  repeat progress unfold GenOperators.body_postadd, GenOperators.body_postsub, GenOperators.body_pos, GenOperators.body_neg,
     GenOperators.body_inv, GenOperators.body_inv2, GenOperators.body_mul, GenOperators.body_div, GenOperators.body_mod,
     GenOperators.body_add, GenOperators.body_sub, GenOperators.body_lshift, GenOperators.body_rshift, GenOperators.body_lsh,
     GenOperators.body_and_, GenOperators.body_xor, GenOperators.body_or_, GenOperators.body_or2,
